@@ -197,8 +197,10 @@ func (b *Bytecode) RemoveDuplicates() {
 				deduped = append(deduped, c)
 			}
 		default:
-			panic(fmt.Errorf("unsupported top-level constant type: %s",
-				c.TypeName()))
+			// constants of other types (e.g. a value returned by a custom
+			// Importable) are kept as they are
+			indexMap[curIdx] = len(deduped)
+			deduped = append(deduped, c)
 		}
 	}
 
